@@ -27,3 +27,25 @@ func TestD8WriteToWithEmptyRing(t *testing.T) {
 		t.Errorf("WriteTo with 300 buffered bytes wrote %d bytes, err = %v", n, err)
 	}
 }
+
+// D7 (C10.7): Peek(n) with ring bytes < n <= Buffered() and n larger than the list part alone is refused.
+func TestD7PeekAcrossRingAndList(t *testing.T) {
+	mb, _ := elastic.New(1024)
+	first := bytes.Repeat([]byte{'r'}, 1024) // ring
+	second := bytes.Repeat([]byte{'l'}, 100) // list
+	_, _ = mb.Write(first)
+	_, _ = mb.Write(second)
+	n := 1100 // <= Buffered() == 1124, but > 100 (the list part)
+	bs, err := mb.Peek(n)
+	if err != nil {
+		t.Fatalf("Peek(%d) with Buffered()=%d failed: %v", n, mb.Buffered(), err)
+	}
+	var got []byte
+	for _, b := range bs {
+		got = append(got, b...)
+	}
+	want := append(append([]byte{}, first...), second[:76]...)
+	if !bytes.Equal(got, want) {
+		t.Errorf("Peek(%d) returned %d bytes, want the first %d", n, len(got), n)
+	}
+}
